@@ -448,6 +448,8 @@ fn cb_programs(rec: &Rec) -> Vec<Vec<CbOp>> {
         vec![CbOp::SetName(b"Host.Example".to_vec(), vec![]), CbOp::Name],
         vec![CbOp::SetName(b"www".to_vec(), nm("zone.test")), CbOp::Name],
         vec![CbOp::SetName(b"a..b".to_vec(), vec![])],
+        vec![CbOp::SetName(b"nul\0in..name".to_vec(), vec![]), CbOp::Name],
+        vec![CbOp::SetName(b"nul\0ok".to_vec(), nm("zone.test")), CbOp::Name],
         // read, change, read, change to another value of the same size, read: whatever the table remembers
         // about a record between two calls of one callback must follow the changes
         vec![CbOp::Name, CbOp::SetRawName(nm("new.x")), CbOp::Name, CbOp::SetRawName(nm("old.y")), CbOp::Name],
@@ -480,7 +482,7 @@ pub fn steps_for(bytes: &[u8]) -> Vec<Step> {
     let m = &d.msg;
     let has_recs = !m.an.is_empty() || !m.ns.is_empty();
     let qr = m.flags & 0x8000 != 0;
-    let mut v = vec![Step::Flags, Step::Rcode, Step::Opcode, Step::SetFlags(0xffff_ffff), Step::SetRcode(0xfe), Step::SetOpcode(0x1d), Step::Question, Step::RawNameFromStr(b"Www.Example.COM".to_vec()), Step::RawNameFromStr(b"a..b".to_vec()), Step::RawNameFromStr(b"".to_vec())];
+    let mut v = vec![Step::Flags, Step::Rcode, Step::Opcode, Step::SetFlags(0xffff_ffff), Step::SetRcode(0xfe), Step::SetOpcode(0x1d), Step::Question, Step::RawNameFromStr(b"Www.Example.COM".to_vec()), Step::RawNameFromStr(b"a..b".to_vec()), Step::RawNameFromStr(b"".to_vec()), Step::RawNameFromStr(b"nul\0in..name".to_vec()), Step::RawNameFromStr(b"nul\0ok".to_vec()), Step::RawNameFromStr(b"caf\xe9.\xff".to_vec())];
     if !has_recs {
         v.push(Step::SetFlags(0x0100));
     }
